@@ -1,4 +1,6 @@
 """C13 - metadata export (-a) only adds packets; application data is unchanged."""
+from hypothesis import strategies as st
+
 import engine
 import oracle
 import runner  # noqa: F401
@@ -161,11 +163,22 @@ def half_close_strategy(tier):
                      st.integers(0, 1), st.integers(0, 6))
 
 
+def with_deflate(sc, k):
+    """a fifth of the connections below TLS 1.3 negotiate DEFLATE (not with RC4, whose export TLExport leaves compressed - DESIGN 8): what
+    -a adds and what it leaves alone is judged between two runs of the same capture"""
+    import tlsref
+    c = sc["conns"][0]
+    if k == 0 and c["version"] != 0x0304 and tlsref.load_suites()[c["suite"]].kind != "stream":
+        sc = dict(sc, conns=[dict(c, sh_comp=True)])
+    return sc
+
+
 def stages(tier):
     quick = tier == "quick"
     deliv = strategies.tcp_delivery(modes=("rec", "flight", "cuts"), wrap=False)
     return [
-        Stage("tls", evaluate_tls, strategy=lambda t: strategies.single_tls_scenario(max_records=8, max_len=600, delivery=deliv),
+        Stage("tls", evaluate_tls, strategy=lambda t: st.builds(with_deflate, strategies.single_tls_scenario(max_records=8, max_len=600, delivery=deliv),
+                                                                 st.integers(0, 4)),
               examples=500 if quick else 12000),
         Stage("tls13-half-close", evaluate_tls, strategy=half_close_strategy, examples=200 if quick else 4000),
         Stage("quic", evaluate_quic, strategy=lambda t: strategies.single_quic_scenario(max_steps=8), examples=700 if quick else 12000),
